@@ -50,11 +50,12 @@ OTHER1 = ["S\tZq\t*", "S\tZq\tACGT\tLN:i:4", "L\t{s}\t+\t{s}\t-\t*", "C\t{s}\t+\
           "H\tVN:Z:1.0", "L\t{s}\t+\t{s}\t+\t2M\txx:i:1"]
 OTHER2 = ["S\tZq\t4\t*", "S\tZq\t4\tACGT", "E\t*\t{s}+\t{s}+\t0\t0\t0\t0\t*", "G\t*\t{s}+\t{s}-\t10\t*",
           "F\t{s}\tr1+\t0\t0\t0\t0\t*", "O\toz\t{s}+", "U\tuz\t{s}", "H\tVN:Z:2.0", "E\tez\t{s}-\t{s}+\t0\t0\t0\t0\t*"]
+ODDVN = ["1.1", "1.2", "2.1", "3.0", "1", "2", "1.00", "gfa1"]
 NEUTRAL = ["H", "H\txx:i:1", "H\tyy:Z:a b\tab:f:1.5", "# c", "#", "H\txx:i:2", "# S\tA\t*"]
 
 
 def gen_case(rng, tier, i):
-    kind = rng.choice(["pure1", "pure2", "neutral", "mixed", "mixed", "mixed", "pure1", "pure2"])
+    kind = rng.choice(["pure1", "pure2", "neutral", "mixed", "mixed", "mixed", "pure1", "pure2", "oddvn"])
     big = tier != "quick"
     if kind == "neutral":
         lines = [rng.choice(NEUTRAL) for _ in range(rng.randint(1, 4))]
@@ -64,10 +65,16 @@ def gen_case(rng, tier, i):
         ml = rng.choice([1, 2, 3, 4, 5, 6] if kind != "mixed" else [1, 2, 3, 4, 5])
         if big:
             ml += rng.choice([0, 0, 1, 2])
-        d = D.gen_doc(rng, version=base_v, max_lines=ml, same_id_groups=False, odd=0.15,
+        d = D.gen_doc(rng, version=base_v, max_lines=ml, same_id_groups=False, odd=0.15, taglike=0.2,
                       no_custom=(base_v == "gfa1" or rng.random() < 0.5))
         lines = list(d["lines"])
         label = base_v
+        if kind == "oddvn":
+            # a VN header with a value gfapy does not know: whatever the outcome, it is the same in every order
+            lines = [l for l in lines if not (l.startswith("H\t") and "VN:Z:" in l)][:5]
+            lines.insert(rng.randint(0, len(lines)), "H\tVN:Z:%s" % rng.choice(ODDVN))
+            if rng.random() < 0.3:
+                lines.insert(rng.randint(0, len(lines)), lines[[l.startswith("H\tVN") for l in lines].index(True)])
         if kind == "mixed":
             pool = OTHER2 if base_v == "gfa1" else OTHER1
             # custom records are outside the claim when GFA1 content is present
@@ -124,7 +131,10 @@ def required(case):
         R.add("gfa2")
     if case["vparam"]:
         R.add(case["vparam"])
-    unspecified = "?" in cl or ("c" in cl and "gfa1" in R)
+    oddvn = any(c == "?" and l.startswith("H") for l, c in zip(case["lines"], cl))
+    unspecified = any(c == "?" and not l.startswith("H") for l, c in zip(case["lines"], cl)) or ("c" in cl and "gfa1" in R)
+    if oddvn and not unspecified:
+        unspecified = "oddvn"
     header_only_conflict = False
     if len(R) == 2:
         # is the conflict visible without the VN header / through the header only?
@@ -215,8 +225,11 @@ def oracle(case):
         F.setdefault(sig, "%s: %s" % (sig, msg))
 
     conflict = len(R) == 2
+    oddvn = unspecified == "oddvn"
+    if oddvn:
+        unspecified = True
     check_expect = vlevel >= 1 and not unspecified
-    check_consistency = not unspecified and (vlevel >= 1 or not conflict)
+    check_consistency = (not unspecified and (vlevel >= 1 or not conflict)) or (oddvn and vlevel >= 1)
     expected_version = list(R)[0] if len(R) == 1 else None
     ref = None
     kin = None
